@@ -125,14 +125,21 @@ impl Vm {
 
             // The VPushAcc opcode represents a primitive instruction for pushing an an element in
             // %acc on to the vector at the top of the stack.
+            //
+            // Every push yields a new vector. The one built so far is on the stack while the next
+            // element is evaluated, so a continuation captured there holds it: re-entering that
+            // continuation must find it as it was then, not with the elements pushed since.
             OpCode::VPushAcc => {
-                let vector_ptr = match self.stack.pop()?.clone() {
-                    VCell::Undefined => self.heap.put(VCell::vector(vec![])),
-                    vector_ptr => vector_ptr,
+                let mut elements = match self.stack.pop()?.clone() {
+                    VCell::Undefined => vec![],
+                    vector_ptr => self
+                        .heap
+                        .get(&vector_ptr)
+                        .as_vector()?
+                        .clone_vector(None, None),
                 };
-                let vector = self.heap.get(&vector_ptr);
-                vector.as_vector()?.push(self.acc.clone());
-                self.acc = vector_ptr;
+                elements.push(self.acc.clone());
+                self.acc = self.heap.put(VCell::vector(elements));
             }
 
             // Procedure Application
